@@ -968,7 +968,9 @@ def generate(rng, tier):
             if r < 0.35 or not m["subs"]:
                 s1 = dict(k="fun", f=gen_failat(rng, m, nv, dtype), style=rng.randint(0, 2), cls="fun-failat")
             else:
-                s1 = dict(k="bad", what=rng.choice(["ragged", "objarr"]), sh=list(m["n"]) + [nv], cls="bad-late")
+                # (an object array's string converts to True in a Boolean field: dtype casting, not for bool)
+                s1 = dict(k="bad", what=rng.choice(["ragged", "objarr"] if dtype != "bool" else ["ragged"]),
+                          sh=list(m["n"]) + [nv], cls="bad-late")
         else:
             items = []
             bad_at = rng.randrange(len(m["subs"]))
@@ -1013,10 +1015,20 @@ def generate(rng, tier):
                 b_.append(hi[ax])
             else:
                 b_.append(F(float(lo[ax]) + round(rng.uniform(0.02, 0.98), 2) * float(hi[ax] - lo[ax])))
-        if rng.random() < 0.4:
+        if rng.random() < 0.25:
             a_, b_ = b_, a_
+        # threshold-directed choice of the number of points: prefer those for which the computed last
+        # point p1 + (n-1)*dl is rounded to just outside the region
+        p1f, p2f = np.array([float(x) for x in a_]), np.array([float(x) for x in b_])
+        lof, hif = np.array([float(x) for x in lo]), np.array([float(x) for x in hi])
+        outside = []
+        for kk in range(2, 61):
+            last = np.add(p1f, (kk - 1) * (np.subtract(p2f, p1f) / (kk - 1)))
+            if np.any(last < lof) or np.any(last > hif):
+                outside.append(kk)
+        npts = rng.choice(outside) if (outside and rng.random() < 0.6) else rng.randint(2, 60)
         cases.append(dict(kind="lineS", mesh=m, nv=nv, dtype="float", spec=spec, p1=[S(x) for x in a_],
-                          p2=[S(x) for x in b_], npts=rng.randint(2, 60)))
+                          p2=[S(x) for x in b_], npts=npts, rounds_outside=npts in outside))
     # -- scalar arrays in both spellings (shape n and shape n + [1]), every layout / element type,
     #    at all three entry points
     for k in range(N // 2):
@@ -1180,7 +1192,7 @@ def alias_clauses(f, val, snap):
         out.append("specification-changed")
     before = f.array.copy()
     for a in arrs:
-        if a.flags.writeable:
+        if a.flags.writeable and a.dtype.kind in "biufc":
             if a.dtype == np.bool_:
                 a[...] = ~a
             else:
@@ -1545,7 +1557,7 @@ def run_case(c):
         on_lo = sum(1 for a in range(len(n)) if p1q[a] == lo[a] or p2q[a] == lo[a])
         rec.update(obs=obs, coq=f'CLineS {g.q(tol)} {mesh_coq(m)} {g.nat(nv)} {spec_coq(spec)} {g.ql(c["p1"])} '
                                 f'{g.ql(c["p2"])} {g.z(k)} {coq_obs}',
-                   key=f'lineS/{len(n)}/{nv}/{exact}/{on_lo}/{k}/{st}')
+                   key=f'lineS/{len(n)}/{nv}/{exact}/{on_lo}/{k}/{st}/{c.get("rounds_outside")}')
         return rec
 
     if kind == "line":
@@ -1608,6 +1620,8 @@ def stats(records):
         rejected = "err" in o or o.get("ok") is False
         k = r["kind"] + ("/rejected" if rejected else "/ok")
         out[k] = out.get(k, 0) + 1
+        if r["kind"] == "lineS" and r["case"].get("rounds_outside"):
+            out["lineS/last-point-rounds-outside"] = out.get("lineS/last-point-rounds-outside", 0) + 1
         reg = "scale" if (r["kind"].startswith("derived") or not r["case"]["mesh"]["exact"]) else "exact"
         out["regime/" + reg] = out.get("regime/" + reg, 0) + 1
     return out
